@@ -224,6 +224,9 @@ func (env *SpecEnv) resolveType(s string) (types.Type, error) {
 	if t, ok := env.ft.e.qualifiedType(s); ok {
 		return t, nil
 	}
+	if t := env.localNamedType(s); t != nil {
+		return t, nil
+	}
 	if env.pkg == nil {
 		return nil, fmt.Errorf("cannot resolve type %q: no package", s)
 	}
@@ -1245,4 +1248,64 @@ func (env *SpecEnv) noteLoad(t Term) {
 	if t.Sort == SRef || t.Sort == SSlice {
 		env.loads = append(env.loads, t)
 	}
+}
+
+// localNamedType resolves a type declared inside the function under
+// verification (or an enclosing function): T, *T, []T, []*T.
+func (env *SpecEnv) localNamedType(s string) types.Type {
+	switch {
+	case strings.HasPrefix(s, "*"):
+		if t := env.localNamedType(s[1:]); t != nil {
+			return types.NewPointer(t)
+		}
+		return nil
+	case strings.HasPrefix(s, "[]"):
+		if t := env.localNamedType(s[2:]); t != nil {
+			return types.NewSlice(t)
+		}
+		return nil
+	}
+	if strings.ContainsAny(s, ".[]( ") {
+		return nil
+	}
+	var found types.Type
+	var visit func(t types.Type, depth int)
+	visit = func(t types.Type, depth int) {
+		if found != nil || t == nil || depth > 4 {
+			return
+		}
+		switch x := t.(type) {
+		case *types.Named:
+			if x.Obj().Name() == s && x.Obj().Parent() != nil && x.Obj().Pkg() != nil && x.Obj().Parent() != x.Obj().Pkg().Scope() {
+				found = x
+			}
+		case *types.Pointer:
+			visit(x.Elem(), depth+1)
+		case *types.Slice:
+			visit(x.Elem(), depth+1)
+		case *types.Map:
+			visit(x.Key(), depth+1)
+			visit(x.Elem(), depth+1)
+		}
+	}
+	start := env.fn
+	if start == nil && env.fr != nil {
+		start = env.fr.fn
+	}
+	for fn := start; fn != nil && found == nil; fn = fn.Parent() {
+		for _, p := range fn.Params {
+			visit(p.Type(), 0)
+		}
+		for _, fv := range fn.FreeVars {
+			visit(fv.Type(), 0)
+		}
+		for _, b := range fn.Blocks {
+			for _, ins := range b.Instrs {
+				if v, ok := ins.(ssa.Value); ok {
+					visit(v.Type(), 0)
+				}
+			}
+		}
+	}
+	return found
 }
